@@ -7,7 +7,7 @@ from . import ir, linear as L
 from .build import AnalysisBroken
 
 
-def rule_index_guards(prog, res, fnames, extra_bounds=None, rule="R-INDEX"):
+def rule_index_guards(prog, res, fnames, extra_bounds=None, rule="R-INDEX", invariant=None, follow=True, inline=False):
     extra_bounds = extra_bounds or {}
     n = 0
     fnames = list(fnames)
@@ -37,8 +37,8 @@ def rule_index_guards(prog, res, fnames, extra_bounds=None, rule="R-INDEX"):
                 return
             ok = st.entails_le(L.ladd(L.lsub(idx, L.lconst(length)), L.lconst(1))) and st.entails_le(L.lscale(idx, -1))
             sites.setdefault((key, length, ir.render(node["i"])), []).append(ok)
-        an = L.Analysis(prog)
-        an.inline = False
+        an = L.Analysis(prog, invariant=invariant)
+        an.inline = inline
         an.on_index = on_index
         an.run(f, L.State())
         dyn = {k: v for k, v in sites.items() if not re.fullmatch(r"-?\d+", k[2]) and "_" not in k[2][:0]}
@@ -52,7 +52,7 @@ def rule_index_guards(prog, res, fnames, extra_bounds=None, rule="R-INDEX"):
             else:
                 res.fail(rule, inst, "%s|%s|%s" % (rule, fname, key), f.loc(),
                          "%s can index %s (%d elements) with %s without having established 0 <= %s < %d: an out-of-range value reads past the table" % (fname, key, length, itext, itext, length))
-        if n == n_before and fname not in followed:
+        if follow and n == n_before and fname not in followed:
             # no table here: the table may have moved into a helper of the same file
             followed.add(fname)
             for gn in prog.direct_callees(f):
